@@ -1307,7 +1307,7 @@ def simpler_nodes(node, mode):
 
 class C09(core.Check):
     pid = "C09"
-    gen_modules = ["geo_padfill"]
+    gen_modules = ["geo_padfill", "layout"]   # layout: C19's translation; its theorems are imported (Proofs/GeometryLayoutTie.v)
     model_targets = ["theories/Model/Geometry.vo", "theories/Model/GeometryX.vo"]
     prop_file = "theories/Properties/C09.v"
     extract_v = "Extract/C09X.v"
@@ -1327,8 +1327,11 @@ class C09(core.Check):
                   "mouse_reaches_drawn_leaf (whole tree): a press on any cell of a drawn child / leaf rectangle is routed "
                   "to exactly that child / leaf with coordinates relative to its top-left corner and the size render "
                   "gave it; (3) move_cursor_iff_child: move_cursor_to_coords succeeds exactly when the child drawn at "
-                  "the cell accepts the translated cell; plus three lemmas about the translated padding / filler "
-                  "arithmetic (margins never negative, top + height + bottom exact); (4) cursor_on_requested_row: after a "
+                  "the cell accepts the translated cell; plus lemmas about the translated padding / filler "
+                  "arithmetic (margins never negative, top + height + bottom exact) which since extension round 2 are "
+                  "C19's theorems carried over: padding_translation_is_c19s / filler_translation_is_c19s (both "
+                  "properties' py2v translations are the same function), column_widths_is_c19s (the two hand mirrors "
+                  "of Columns.column_widths are the same function), column_widths_partition, padding_child_width; (4) cursor_on_requested_row: after a "
                   "successful move that went down to a leaf the tree still fits and the reported cursor is on the "
                   "requested row, including moves that change the focus of a Pile or a Columns (needs "
                   "column_widths_focus_independent: when the static needs fit, Columns.column_widths does not depend "
@@ -1362,6 +1365,7 @@ class C09(core.Check):
         "tools/py2v translator (int_scale, calculate_left_right_padding, calculate_top_bottom_filler regenerated every run)",
         "extraction: ExtrOcamlBasic only; Z/positive stay Coq datatypes; OCaml 4.13.1; tools/driver/driver.ml",
         "hand-written mirror of the geometry methods and size helpers in Model/Geometry.v (validated by this correspondence)",
+        "C19's Model/Layout.v, Proofs/LayoutArith.v, Proofs/LayoutColumns.v, Gen/layout_gen.v (imported read-only; Proofs/GeometryLayoutTie.v proves this model's arithmetic equal to C19's, so a drift of either hand mirror of column_widths breaks the build)",
         "Model/GeometryX.v (fixed-size paths, 'pack' columns, sizing() of Pile / Columns): hand-written mirror validated by the correspondence; theorems in Proofs/GeometryXProofs.v; identical to the proved model on trees without fixed parts (proved; also compared at run time)",
         "Python oracle, spy leaves and the implementation-side 'fits' walk in harness/props/c09.py",
     ]
